@@ -5,7 +5,10 @@ import (
 	"fmt"
 	"io"
 	"os"
+	"os/exec"
+	"path/filepath"
 	"runtime"
+	"strings"
 
 	snes "github.com/alttpo/snes"
 
@@ -182,5 +185,38 @@ func interleavedWithLibrary(r *vf.Run, check func(m *mapper, a uint32, cells map
 			break
 		}
 		r.Cell(fmt.Sprintf("interleaved:mode%02x", c.mapMode))
+	}
+}
+
+// usedAtInitTime runs the probe programs built by ./check (initprobe/): in each, one mapper is used
+// during package initialisation by a package that imports only that mapper, before the other mapper
+// packages have been initialised; main then checks laws and class windows of all four on a sample.
+func usedAtInitTime(r *vf.Run) {
+	probes := strings.Fields(os.Getenv("VERIF_INITPROBES"))
+	if os.Getenv("VERIF_CHILD") != "" || !r.Phase("used-at-init-time") {
+		return
+	}
+	if len(probes) == 0 {
+		r.SetExtra("init_time_probes", "not built (run through ./check)")
+		return
+	}
+	for _, exe := range probes {
+		b, err := exec.Command(exe).CombinedOutput()
+		r.Eval(1)
+		name := filepath.Base(exe)
+		if ee, ok := err.(*exec.ExitError); ok && ee.ExitCode() == 1 {
+			first := "probe reported a violation"
+			for _, ln := range strings.Split(string(b), "\n") {
+				if strings.HasPrefix(ln, "probe-violation") {
+					first = ln
+					break
+				}
+			}
+			r.Fail("mapper-used-at-init-time", first, map[string]string{"probe": name})
+		} else if err != nil {
+			r.Inconclusive(fmt.Sprintf("init-time probe %s did not run: %v", name, err))
+		} else {
+			r.Cell("init-time:" + strings.SplitN(name, ".", 2)[0])
+		}
 	}
 }
